@@ -24,6 +24,7 @@ EXPLANATION = (
     "for directories) and the incremental update order (extend, then reduce, on a deep copy). Agreement of the regex "
     "and glob translations on every pattern and tree is value-level and is NOT claimed. "
     "Also: every application of a registration's regex to a path (matcher, relevance test, product check) is a fullmatch; the match set of a registration is rewritten by row id."
+    " R-C17-6 single-component tokens are translated (finite interpretation + regex AST) into expressions that cannot match '/'; R-C17-9 both compilers interpret a substitution in the same context."
 )
 ASSUMPTIONS = ["CPython's glob.iglob semantics", "agreement of both translations for all patterns is not decided (see DESIGN.md C17)"]
 
